@@ -89,7 +89,7 @@ def _text(kind, items):
     if kind == "smchart":
         return "#NOTES:" + ":".join(v for _, v in items) + ";\n"
     head = "#NOTEDATA:;\n" if kind == "sscchart" else ""
-    return head + "".join(f"#{k}:{v};\n" for k, v in items)
+    return head + "".join((f"#{k};\n" if v is None else f"#{k}:{v};\n") for k, v in items)
 
 
 def build(kind, items, via):
@@ -504,6 +504,9 @@ VALUE = st.one_of(
     st.sampled_from(["v", "w", "0.000=120.000", "a b.c", "YES", "1"]),
     st.text(alphabet="abXY019 .", max_size=6).map(str.strip),
 )
+# simfiles and SSC charts: also None (what a key-only parameter such as '#STOPS;' loads as - present, without a value) and
+# values holding carriage returns (what Windows-authored multi-line values load as)
+VALUE_ANY = st.one_of(VALUE, VALUE, VALUE, st.none(), st.sampled_from(["a\rb", "x\r\ny", "1\r\n,2"]))
 UNRELATED = ["OTHER", "FOO", "BGCHANGES2", "STOPS2", "NOTES3"]
 
 
@@ -551,12 +554,12 @@ def s_op(kind):
     key = st.one_of(st.sampled_from(hot_keys), st.sampled_from(hot_keys), st.sampled_from(known), st.sampled_from(unrelated))
     return st.one_of(
         st.tuples(st.just("aget"), attr).map(list),
-        st.tuples(st.just("aset"), attr, VALUE).map(list),
-        st.tuples(st.just("aset"), attr, VALUE).map(list),
+        st.tuples(st.just("aset"), attr, VALUE_ANY).map(list),
+        st.tuples(st.just("aset"), attr, VALUE_ANY).map(list),
         st.tuples(st.just("adel"), attr).map(list),
         st.tuples(st.just("kget"), key).map(list),
-        st.tuples(st.just("kset"), key, VALUE).map(list),
-        st.tuples(st.just("kset"), key, VALUE).map(list),
+        st.tuples(st.just("kset"), key, VALUE_ANY).map(list),
+        st.tuples(st.just("kset"), key, VALUE_ANY).map(list),
         st.tuples(st.just("kdel"), key).map(list),
         st.tuples(st.just("kin"), key).map(list),
         st.just(["iter"]),
@@ -573,7 +576,7 @@ def s_start(kind):
             ),
         )
     key = st.one_of(st.sampled_from(hot_keys), st.sampled_from(known), st.sampled_from(unrelated))
-    some = st.lists(st.tuples(key, VALUE).map(list), max_size=5, unique_by=lambda p: p[0])
+    some = st.lists(st.tuples(key, VALUE_ANY).map(list), max_size=5, unique_by=lambda p: p[0])
     base = st.one_of(
         st.just({"via": "setitem", "items": []}),
         st.just({"via": "blank"}),
